@@ -327,7 +327,12 @@ pub fn write_float_nonscientific<const FORMAT: u128>(
     // Won't panic since `integer_count < digits.len()` since `digit_count <
     // digits.len()`.
     let digits = &digits[integer_count..];
-    let fraction_count = digit_count.saturating_sub(integer_length);
+    let mut fraction_count = digit_count.saturating_sub(integer_length);
+    if rtrim_char_count(&digits[..fraction_count], b'0') == fraction_count {
+        // Rounding only left zeros in the fraction: write it as an integer.
+        digit_count -= fraction_count;
+        fraction_count = 0;
+    }
     if fraction_count > 0 {
         // Need to write additional fraction digits.
         let src = &digits[..fraction_count];
